@@ -5,10 +5,27 @@ from checks.durable_check import replay_execution
 from checks.executor_common import STRICT, c10
 
 
+def model_extra(ctx, execs):
+    """branch contexts that already exist (re-invocation) + the pinned variant of the orphan check as a regression of the model"""
+    from checks.executor_common import exec_mc, executor_sweep
+    from lib.tlcrun import MachineryError, require_ok, run_tlc
+    executor_sweep(ctx, STRICT["C10"], tag="ex_C10_pre", pre=(2,), budget=(3 if ctx.quick else None),
+                   scripts_sets=[[["ok"], ["step", "step", "ok"]], [["step", "ok"], ["tsusp", "step", "ok"], ["fail"]]],
+                   configs=[(0, 1, 99, 999), (0, 0, 0, 999), (1, 1, 99, 999)])
+    mod, cfg = exec_mc("exp_C10_nowalk", [["ok"], ["step", "step", "ok"]], 0, 1, 99, 999, ["NoDescendantAfterParentDone"], pre=(2,),
+                       ancestor_walk=False)
+    res = run_tlc(mod, cfg, "exp_C10_nowalk", timeout_s=600)
+    require_ok(res, "Executor.tla probe FixAncestorWalk=FALSE")
+    ctx.add_tlc(res, "probe: without the ancestor walk a re-entered (pre-existing) branch context records behind its parent's completion")
+    if res.ok or res.violated != "NoDescendantAfterParentDone":
+        raise MachineryError(f"probe FixAncestorWalk=FALSE: expected NoDescendantAfterParentDone to fail, got ok={res.ok} {res.violated}")
+
+
 def run(ctx):
     run_conc(ctx, invs=STRICT["C10"], oracle_fns=[c10],
              programs=["m02_first_successful", "m03_failure", "m07_min_with_failure", "m08_nested", "m11_tolerance", "m01_all_ok",
-                       "m16_ctx_fails_with_straggler"],
+                       "m16_ctx_fails_with_straggler", "m17_reinvoke_early_completion"],
+             post=model_extra,
              n_scen=(8, 20),
              extra_rule="Early-completion configurations with surviving branches inside a user function (function durations), between "
                         "operations, about to start a new operation or a nested map. Oracle on the backend's update stream: no update whose "
